@@ -37,7 +37,13 @@ def run(pid, tier, seed):
     def gen():
         return vlib.generate_and_replay("IprSeqMC", pid, {"MaxLen": 36 if q else 70}, exe, ("replay",), ["Sane"], (), 2, 1200)
 
-    with ThreadPoolExecutor(max_workers=4) as ex:
+    def gen_iter(n):
+        # spec/IprIter.tla: every sequence of iterator operations of the given depth on a sequence of n elements
+        return vlib.generate_and_replay("IprIterMC", "%s-iter%d" % (pid, n), {"N": n, "Slack": 2, "Depth": 4 if q else 5},
+                                        exe, ("replay-iter", str(n)), ["ItInvariant"], (), 4, 1200)
+
+    with ThreadPoolExecutor(max_workers=6) as ex:
+        itf = [ex.submit(gen_iter, n) for n in ((0, 1, 3) if q else (0, 1, 2, 3, 5))]
         gf = ex.submit(gen)
         tf = [ex.submit(vlib.validate_trace_resync, "IprSeqTrace", tp, (), pid, 12, lambda ev: ev.get("e") == "new", None, 1200)
               for tp in tps]
@@ -45,6 +51,7 @@ def run(pid, tier, seed):
         r = gf.result()
         trs = [f.result() for f in tf]
         mk = mf.result() if mf else None
+        its = [f.result() for f in itf]
 
     violations, samples = [], []
     s, t = r["summary"], r["tlc"]
@@ -65,9 +72,32 @@ def run(pid, tier, seed):
         path = vlib.save_replay(pid, "seq-%s.json" % f["key"].replace(":", "-").replace("<", "_").replace(">", "_"), json.dumps(f) + "\n")
         violations.append((f["key"], "sequence implementation %s holding %d elements: `%s` must be %s, the library gives %s" % (
             f["kind"], f["len"], fld, f["expected"].get(fld), f["got"].get(fld)), path))
+    it_states = it_trans = it_beh = it_steps = 0
+    for ir in its:
+        isum = ir["summary"]
+        if isum["behaviours"] == 0:
+            raise vlib.ModelFailure("no iterator behaviour generated")
+        it_states += ir["tlc"].distinct
+        it_trans += ir["tlc"].generated
+        it_beh += isum["behaviours"] - isum["failed"]
+        it_steps += isum["steps"]
+        for f in ir["fails"]:
+            if pid == "C09" and not f.get("kind", "").startswith("typed_sequence"):
+                foreign += 1
+                continue
+            key = "iter:" + f["key"]
+            if key in seen:
+                continue
+            seen.add(key)
+            path = vlib.save_replay(pid, "iter-%s.json" % f["key"].replace(":", "-").replace("<", "_").replace(">", "_"), json.dumps(f) + "\n")
+            violations.append((key, "iterator over %s holding %d elements, operation %s of %s: specification expects %s, the library "
+                                    "gives %s (element numbers from 1, -1 = refused)" % (
+                                        f["kind"], f["len"], f["step"], json.dumps([e["op"] for e in f["beh"]]), f["expected"], f["got"]), path))
+        if ir["crash"]:
+            violations.append(("crash", "library crashed in the iterator sweep", vlib.save_replay(pid, "crash-iter.json", ir["crash"]["beh"])))
     if r["crash"]:
         violations.append(("crash", "library crashed in the sequence sweep", vlib.save_replay(pid, "crash.json", r["crash"]["beh"])))
-    states, transitions = t.distinct, t.generated
+    states, transitions = t.distinct + it_states, t.generated + it_trans
     lines = 0
     seenk = set()
     nrej = 0
@@ -111,14 +141,17 @@ def run(pid, tier, seed):
                     + [json.loads(x) for x in head if '"optional"' in x][:1]})
     cov = {
         "states": states, "transitions": transitions,
-        "traces_validated_against_impl": s["behaviours"] - s["failed"] + sum(tr["executions"] for tr in trs) - nrej,
-        "evaluations": s["steps"] + lines, "distinct_nontrivial": s["classes"],
+        "traces_validated_against_impl": s["behaviours"] - s["failed"] + it_beh + sum(tr["executions"] for tr in trs) - nrej,
+        "evaluations": s["steps"] + it_steps + lines, "distinct_nontrivial": s["classes"],
         "rule": "binding A: the expected observation (size, empty, positional access at 0..size+2 and SIZE_MAX, iteration, "
                 "begin-to-end distance, helper size/operator[]) after each of up to %d appends (so that every block, chunk or index structure of an implementation is crossed), replayed on every one of the 25 "
-                "sequence implementations/routes (fixed-size ones at their size). A class is implementation x length. binding B: "
+                "sequence implementations/routes (fixed-size ones at their size). A class is implementation x length. IprIter: one iterator "
+                "object put through every sequence of %d operations out of ++it, --it, it++, it-- (value used or not), *it, ->, copy, "
+                "== begin(), == end() on sequences of %s elements of every implementation (its state is its position: nothing it was "
+                "asked before may matter; outside the bounds reading is refused). binding B: "
                 "the same for sizes 0,1,3,5,17,40 (positions 2^k + j far beyond the bounds included) plus derived operations (try_block, Udt scope/members, Block body, Template "
                 "parameters/result, default_value, Type::linkage, Scope::size), the six equality operators on all pairs of "
-                "six values, and Optional::get on empty/valid values; once plain, once under ASan/UBSan." % (36 if q else 70),
+                "six values, and Optional::get on empty/valid values; once plain, once under ASan/UBSan." % (36 if q else 70, 4 if q else 5, "0, 1, 3" if q else "0, 1, 2, 3, 5"),
         "samples": samples, "exhaustive": True, "exhaustive_scope": "all implementations x lengths 0..%d" % (36 if q else 70),
         "failures_attributed_to_other_properties": foreign, "recorded_events": lines,
     }
